@@ -327,8 +327,12 @@ func genAdminProgram(r *rand.Rand) []bt.Op {
 			prog = append(prog, op)
 		case x < 0.20:
 			prog = append(prog, bt.Op{Ev: "DeleteTable", T: t})
-		case x < 0.26:
+		case x < 0.24:
 			prog = append(prog, bt.Op{Ev: "GetTable", T: t})
+		case x < 0.25:
+			prog = append(prog, bt.Op{Ev: "GenerateToken", T: t})
+		case x < 0.26:
+			prog = append(prog, bt.Op{Ev: "CheckConsistency", T: t, TokFor: tables[g.pick(len(tables))], Genuine: g.chance(0.8)})
 		case x < 0.31:
 			p := parents[g.pick(2)]
 			if g.chance(0.15) {
